@@ -17,7 +17,8 @@ ASSUMPTIONS = [
     "(real-thread releases are exercised by the harness, the mutex itself is not verified)",
     "capacity() is compared as a lower bound (libstdc++ may over-allocate)",
 ]
-TRUSTED = ["C++ std::string/std::deque/std::stack semantics (modelled, not verified)"]
+TRUSTED = ["tools/cxx2lean.py (source-derived tie, DESIGN.md 0.7): clang-14 JSON AST, chrono unit semantics read from the desugared types, unbounded Int for signed arithmetic (overflow = UB), abstract memcmp / container queries",
+           "C++ std::string/std::deque/std::stack semantics (modelled, not verified)"]
 ALL_TAGS = ["get.alloc", "get.idle", "get.throw", "rel", "fill", "rx.value", "rx.nothing", "rx.exn", "rx.full", "rx.drop"]
 EXHAUSTIVE = {"thorough": False}
 
